@@ -23,6 +23,8 @@
 (***************************************************************************)
 EXTENDS FsgSearchAbs, LatticePred
 
+CONSTANT EndTieDev      \* TRUE reproduces the end-node choice before fix d619062 (see EndChoices)
+
 NonNull == {i \in 2..Len(hist) : hist[i].arc[3] # EPS}
 
 Sf(i) == hist[hist[i].pred].fr + 1          \* pred = dummy or a frame -1 null entry gives 0
@@ -63,13 +65,19 @@ BestExit(k) == MaxOf({Ascr(i) : i \in {j \in NonNull : Key(j) = k}})
 EndCands == {k \in Keys1 : Lef(k) = t - 1 /\ HasEntries(k)}
 LateCands == LET c == {k \in Keys1 : Lef(k) > 0 /\ HasEntries(k)}
              IN {k \in c : \A x \in c : Lef(x) <= Lef(k)}
-\* the possible end nodes (a set, because ties are broken by list order); {} = no lattice
-EndChoices == IF Cardinality(EndCands) = 1 THEN EndCands
-              ELSE IF EndCands = {} THEN LateCands
+\* End-node candidates: the nodes that end in the last frame, or else (no word exit there) those with the latest exit
+\* frame; one candidate is the end node, several are joined by the artificial end node; {} = no lattice.
+\* EndTieDev = TRUE is the code before fix d619062: without a candidate in the last frame it kept whichever latest-exit
+\* node came first in its list (any of them, for the model), and the others - possibly the first-best's last word -
+\* were deleted as not reaching it.
+Cands == IF EndCands # {} THEN EndCands ELSE LateCands
+EndChoices == IF EndTieDev /\ EndCands = {} THEN LateCands
+              ELSE IF Cardinality(Cands) = 1 THEN Cands
+              ELSE IF Cands = {} THEN {}
               ELSE {EKey}
 
 LatticeFor(endk) ==
-    LET links2 == Links1 \cup (IF endk = EKey THEN {<<k, EKey, BestExit(k), t>> : k \in EndCands} ELSE {})
+    LET links2 == Links1 \cup (IF endk = EKey THEN {<<k, EKey, BestExit(k), t>> : k \in Cands} ELSE {})
         keys2 == Keys1 \cup (IF endk = EKey THEN {EKey} ELSE {})
         RECURSIVE Back(_)
         Back(S) == LET T == S \cup {l[1] : l \in {x \in links2 : x[2] \in S}} IN IF T = S THEN S ELSE Back(T)
